@@ -3,38 +3,11 @@ import LokiModel.Props.C13
 # C13 — regression statements about defects repaired by `fix:` commits (old behaviour, self-contained definitions)
 
 Not part of the property theorems and not gating: `Props/C13.lean` states what the code does now
-(`C13_class`, `C13_no_recursion`).  The witnesses of the findings that are still open
+(`C13_no_recursion`; `empty-dimensions-array` is open again, its repair was reverted).  The witnesses of the findings that are still open
 (`C13_type_shared_full_false`, `C13_create_name_full_false`, `C13_read_pure_full_false`) live in `Props/C13.lean`
 because the `_partial` theorems there refer to them.
 -/
 namespace LokiModel.C13
-
-/-- the tier chain before the fix for `empty-dimensions-array`: only `dimensions=None` was dropped -/
-def classifyOld (ty : Option Ty) (name : Name) (dims : Option Nat) : SymClass :=
-  if isProc ty then .procedureSymbol
-  else if isDerivedNamed ty name then .derivedTypeSymbol
-  else if dims.isSome || shapeTruthy ty then .array
-  else if cleanOpt ty then .scalar
-  else .deferredTypeSymbol
-
-/-- `Variable(name='x', type=INTEGER, dimensions=())` used to be an `Array`, against the table of the statement -/
-theorem C13_old_empty_dims_array :
-    classifyOld (some { dtype := .integer }) ['x'] (some 0) = .array ∧
-    refClass (some { dtype := .integer }) ['x'] (some 0) = .scalar ∧
-    classify (some { dtype := .integer }) ['x'] (some 0) = .scalar := by decide
-
-/-- old and new chain differ exactly on the former class `KnownEmptyDims` -/
-theorem C13_old_differs_only_on_empty_dims (ty : Option Ty) (n : Name) (d : Option Nat)
-    (h : (d == some 0 && !isProc ty && !isDerivedNamed ty n && !shapeTruthy ty) = false) :
-    classifyOld ty n d = classify ty n d := by
-  unfold classifyOld classify
-  cases h1 : isProc ty <;> cases h2 : isDerivedNamed ty n <;> cases h3 : shapeTruthy ty <;>
-    simp [h1, h2, h3] at h ⊢
-  cases d with
-  | none => simp [normDims]
-  | some k => cases k with
-    | zero => simp at h
-    | succ k => simp [normDims]
 
 /-- `tdef_var.type` before the fix for `deferred-member-recursion`: an attached holder whose entry for the member
 is not clean sent `_lookup_type` back into `variable_map` without end -/
